@@ -38,7 +38,45 @@ type Scenario struct {
 	Run        func(ch vs.Chooser, trace bool) (*vs.Sched, Outcome)
 }
 
+// SeqPart is an explicit-state / exhaustive-history part of a check that runs on the workers in shards.
+type SeqPart struct {
+	Name   string
+	Shards int
+	Run    func(shard, nshards int, thorough bool) SeqResult
+}
+
+type SeqViol struct {
+	Sig    string      `json:"sig"`
+	What   string      `json:"what"`
+	Replay interface{} `json:"replay"`
+	Count  int64       `json:"count"`
+}
+
+type SeqResult struct {
+	States      int64                  `json:"states"`
+	Transitions int64                  `json:"transitions"`
+	Traces      int64                  `json:"traces"`
+	Viol        []SeqViol              `json:"viol"`
+	Samples     []interface{}          `json:"samples"`
+	Info        map[string]interface{} `json:"info"`
+}
+
+// Violate records a violation in a SeqResult (first per signature keeps its replay data).
+func (r *SeqResult) Violate(sig, what string, replay interface{}) {
+	for i := range r.Viol {
+		if r.Viol[i].Sig == sig {
+			r.Viol[i].Count++
+			return
+		}
+	}
+	r.Viol = append(r.Viol, SeqViol{sig, what, replay, 1})
+}
+
 type job struct {
+	Seq      string `json:"q,omitempty"`
+	Shard    int    `json:"i,omitempty"`
+	NShards  int    `json:"n,omitempty"`
+	Thorough bool   `json:"t,omitempty"`
 	Scenario string `json:"s"`
 	Bound    int    `json:"b"`
 	Prefix   []int  `json:"p"`
@@ -160,15 +198,22 @@ type scenStat struct {
 // Extra lets a check add sequential (explicit-state) parts; it returns states, transitions, traces.
 type Extra func(run *report.Run) (states, transitions, traces int64, samples []interface{})
 
-func Main(id string, scenarios []Scenario, extra Extra) {
+func Main(id string, scenarios []Scenario, extra Extra, seqParts ...SeqPart) {
 	byName := map[string]*Scenario{}
 	for i := range scenarios {
 		byName[scenarios[i].Name] = &scenarios[i]
+	}
+	seqByName := map[string]*SeqPart{}
+	for i := range seqParts {
+		seqByName[seqParts[i].Name] = &seqParts[i]
 	}
 	if shard.IsWorker() {
 		shard.Serve(func(raw json.RawMessage) interface{} {
 			var j job
 			json.Unmarshal(raw, &j)
+			if j.Seq != "" {
+				return seqByName[j.Seq].Run(j.Shard, j.NShards, j.Thorough)
+			}
 			return byName[j.Scenario].exploreJob(j)
 		})
 	}
@@ -197,6 +242,55 @@ func Main(id string, scenarios []Scenario, extra Extra) {
 		st, tr, tc, sm := extra(run)
 		xStates, xTrans, xTraces = st, tr, tc
 		samples = append(samples, sm...)
+	}
+
+	if len(seqParts) > 0 && only == "" {
+		var jobs []interface{}
+		for _, sp := range seqParts {
+			n := sp.Shards
+			if n <= 0 {
+				n = 16
+			}
+			for i := 0; i < n; i++ {
+				jobs = append(jobs, job{Seq: sp.Name, Shard: i, NShards: n, Thorough: thorough})
+			}
+		}
+		info := map[string]interface{}{}
+		shard.Run(jobs, shard.Options{JobTimeout: budget + 2*time.Minute}, func(i int, raw json.RawMessage, fail *shard.Failure) {
+			j := jobs[i].(job)
+			if fail != nil {
+				run.Infra(fmt.Sprintf("%s shard %d: worker %s: %s\n%s", j.Seq, j.Shard, fail.Kind, fail.Exit, fail.Stderr))
+				return
+			}
+			var r SeqResult
+			if err := json.Unmarshal(raw, &r); err != nil {
+				run.Infra("bad worker result: " + err.Error())
+				return
+			}
+			xStates += r.States
+			xTrans += r.Transitions
+			xTraces += r.Traces
+			for _, v := range r.Viol {
+				for k := int64(0); k < v.Count; k++ {
+					run.Violate(id+"|"+v.Sig, v.What, v.Replay)
+					if k > 3 {
+						break
+					}
+				}
+			}
+			if len(samples) < 10 {
+				samples = append(samples, r.Samples...)
+			}
+			for k, v := range r.Info {
+				if f, ok := v.(float64); ok {
+					old, _ := info[j.Seq+"."+k].(float64)
+					info[j.Seq+"."+k] = old + f
+				} else {
+					info[j.Seq+"."+k] = v
+				}
+			}
+		})
+		run.Set("explicit_state_parts", info)
 	}
 
 	stats := map[string]*scenStat{}
@@ -332,6 +426,9 @@ func Main(id string, scenarios []Scenario, extra Extra) {
 			for o := range r.Outcomes {
 				sets[k][o] = true
 			}
+			if os.Getenv("VERIF_DEBUG") != "" {
+				fmt.Fprintf(os.Stderr, "crosscheck %s cache=%v: %+v err=%q outcomes=%d\n", sc.Name, cache, r.Stats, r.Err, len(r.Outcomes))
+			}
 			execs[k] = r.Stats.Executions
 		}
 		if st.CrossCheck == "" {
@@ -424,4 +521,31 @@ func replay(id string, byName map[string]*Scenario, path string) {
 	}
 	fmt.Println("not reproduced")
 	os.Exit(0)
+}
+
+// ForEachSeq enumerates every sequence of length 1..depth over an alphabet of size k and calls f for the
+// sequences whose ordinal falls into this shard (a total, deterministic partition).
+func ForEachSeq(k, depth, shard, nshards int, f func(seq []int)) {
+	ord := 0
+	for l := 1; l <= depth; l++ {
+		seq := make([]int, l)
+		for {
+			if ord%nshards == shard {
+				f(seq)
+			}
+			ord++
+			i := l - 1
+			for i >= 0 {
+				seq[i]++
+				if seq[i] < k {
+					break
+				}
+				seq[i] = 0
+				i--
+			}
+			if i < 0 {
+				break
+			}
+		}
+	}
 }
